@@ -966,6 +966,7 @@ func Execute(t *testing.T, plan *Plan) (res *RunResult) {
 		}
 	}()
 	synctest.Test(t, func(t *testing.T) {
+		pinGlobalRand(plan.Seed)
 		e := &Engine{plan: plan, W: NewWorld(plan), names: map[int64]string{}, parked: map[string]*parkedTask{},
 			inflight: map[string]bool{}, holder: map[string]bool{}, occ: map[string]int{}, faults: map[string]string{},
 			cur: map[string]*OpRec{}, finished: map[string]bool{}, open: map[*simW]bool{}, tracked: map[string]Stored{}, stats: newStats()}
